@@ -939,12 +939,12 @@ func RunGated(e *Env) {
 	rng := e.Rand(1)
 	// exhaustive grid for small n
 	var cases []GScenario
-	maxGrid := e.Pick(2, 3)
+	maxGrid := e.Pick(2, 4)
 	for n := 1; n <= maxGrid; n++ {
 		cases = append(cases, gridScenarios(n, e.Thorough())...)
 	}
 	e.R.Count("grid_cases", int64(len(cases)))
-	nrand := e.Pick(8000, 150000)
+	nrand := e.Pick(8000, 600000)
 	for i := 0; i < nrand; i++ {
 		n := 1 + rng.Intn(7)
 		cases = append(cases, genScenario(rng, n, qcVariants))
